@@ -353,12 +353,10 @@ class MultiPackIndex:
         (pack_id,) = struct.unpack(">L", self._contents[offset : offset + 4])
         (pack_offset,) = struct.unpack(">L", self._contents[offset + 4 : offset + 8])
 
-        # Check if this is a large offset (MSB set)
-        if pack_offset & 0x80000000:
-            # Look up in LOFF chunk
-            if CHUNK_LOFF not in self._chunks:
-                raise ValueError("Large offset found but no LOFF chunk")
-
+        # The MSB marks an index into the LOFF chunk only when that chunk
+        # exists. git writes it only if some offset needs more than 32 bits;
+        # without it, offsets from 2**31 up are plain 32-bit values.
+        if pack_offset & 0x80000000 and CHUNK_LOFF in self._chunks:
             large_index = pack_offset & 0x7FFFFFFF
             large_offset_pos = self._loff_offset + large_index * 8
             (pack_offset,) = struct.unpack(
